@@ -47,6 +47,8 @@ type VChan struct {
 	Topic   string
 	Modes   state.ChanMode
 	Members map[string]*state.ChanPrivs // nick -> privileges as far as revealed
+	// ModesAsked: the client has asked for this channel's modes since it joined (a server reveals them only then)
+	ModesAsked bool
 }
 
 // NewNet builds a network with nUsers other users and nChans channels.
@@ -246,6 +248,7 @@ func (n *Net) Answer(line string) []string {
 			if ch, ok := n.Chans[f[1]]; ok {
 				if v, on := n.VChans[f[1]]; on {
 					v.Modes = ch.Modes
+					v.ModesAsked = true
 				}
 				return []string{fmt.Sprintf(":srv 324 %s %s %s", n.Me, f[1], modeString(ch.Modes))}
 			}
@@ -708,6 +711,10 @@ func (n *Net) CompareTracker(st state.Tracker) string {
 			}
 			if got.Modes == nil || *got.Modes != v.Modes {
 				return fmt.Sprintf("channel %s modes %+v, revealed by the server %+v", x, got.Modes, v.Modes)
+			}
+			if !v.ModesAsked {
+				// (compared at quiescence only: everything the client sent so far has been answered)
+				return fmt.Sprintf("channel %s modes were never asked for since the client joined it: the tracker cannot hold the server's %+v", x, n.Chans[x].Modes)
 			}
 			if d := privMapDiff(got.Nicks, v.Members); d != "" {
 				return fmt.Sprintf("channel %s members: %s", x, d)
